@@ -85,6 +85,50 @@ type stale struct {
 
 var old *stale
 
+const deepKey = "abcdefghijklmnopqrstuvwxyz0123456789"
+
+// handed is a snapshot of the parked writer's transaction, handed over to the reader goroutines (nil at stages where
+// the writer has no transaction of its own to share).
+var handed atomic.Pointer[fox.Txn]
+
+func handedEntries() []entry {
+	wide := "/wide/1/2/3/4/5/6/7"
+	return []entry{
+		{"snapshot handed over by the writer: Lookup+CloneWith+Clone", func(r *fox.Router) {
+			t := handed.Load()
+			if t == nil {
+				return
+			}
+			for _, p := range []string{wide, "/s/ab/more/9", "/p/1/c/x"} {
+				if rte, cc, _ := t.Lookup(nil, req("GET", "", p)); rte != nil {
+					cw := cc.CloneWith(nil, req("GET", "", p))
+					_ = cw.Param("a")
+					_ = cc.Clone()
+					cw.Close()
+					cc.Close()
+				}
+			}
+		}},
+		{"snapshot handed over by the writer: Has+Route+Reverse+Iter", func(r *fox.Router) {
+			t := handed.Load()
+			if t == nil {
+				return
+			}
+			t.Has("GET", "/w/new")
+			t.Route("GET", "/wide/{a}/{b}/{c}/{d}/{e}/{f}/{g}")
+			t.Reverse("GET", "", wide)
+			t.Len()
+			it := t.Iter()
+			for range it.All() {
+			}
+			for range it.Prefix(seq("GET"), "/deep") {
+			}
+			for range it.Reverse(seq("GET"), "", wide) {
+			}
+		}},
+	}
+}
+
 func takeStale(r *fox.Router) *stale {
 	s := &stale{it: r.Iter(), txn: r.Txn(false)}
 	_, s.cc, _ = r.Lookup(nil, req("GET", "", "/p/1/c/x"))
@@ -156,6 +200,16 @@ func entries() []entry {
 			for range r.Iter().All() {
 			}
 		}},
+		{"ServeHTTP+Iter.Prefix+Routes in a deep chain", func(r *fox.Router) {
+			r.ServeHTTP(&nullW{http.Header{}}, req("GET", "", "/deep/"+deepKey[:30]))
+			it := r.Iter()
+			for range it.Prefix(seq("GET"), "/deep/abc") {
+			}
+			for range it.Routes(seq("GET"), "/deep/"+deepKey[:31]) {
+			}
+			for range it.Reverse(seq("GET"), "", "/deep/"+deepKey[:29]) {
+			}
+		}},
 		{"Iter.Methods+Routes+Reverse+Prefix", func(r *fox.Router) {
 			it := r.Iter()
 			for range it.Methods() {
@@ -199,6 +253,10 @@ func build(cfg config) *fox.Router {
 	}
 	r.MustHandle("POST", "/s/a", h)
 	r.MustHandle("POST", "/t/", h)
+	// a chain of more than 25 nested nodes (iterators switch to a heap-allocated stack beyond a fixed depth)
+	for i := 1; i <= 32; i++ {
+		r.MustHandle("GET", "/deep/"+deepKey[:i], h)
+	}
 	r.MustHandle("GET", "/ctx/{n}", func(c fox.Context) {
 		cl := c.Clone()
 		_ = cl.Param("n")
@@ -222,7 +280,13 @@ func park(r *fox.Router, stage string) (release func(), ok bool) {
 		_, _ = t.Update("GET", "/s/a", h)
 		_, _ = t.Delete("GET", "/s/ab")
 		_, _ = t.Handle("GET", "/s/ab/more/{z}", h)
+		// more parameters than any published route, and a chain deeper than any published one
+		_, _ = t.Handle("GET", "/wide/{a}/{b}/{c}/{d}/{e}/{f}/{g}", h)
+		for i := 33; i <= 36; i++ {
+			_, _ = t.Handle("GET", "/deep/"+deepKey[:i], h)
+		}
 	}
+	handed.Store(nil)
 	hook := ""
 	switch stage {
 	case "at-txn.afterLock":
@@ -252,12 +316,14 @@ func park(r *fox.Router, stage string) (release func(), ok bool) {
 		case "after-writes":
 			t := r.Txn(true)
 			writes(t)
+			handed.Store(t.Snapshot())
 			close(parked)
 			<-resume
 			t.Commit()
 		case "inside-Updates":
 			_ = r.Updates(func(t *fox.Txn) error {
 				writes(t)
+				handed.Store(t.Snapshot())
 				close(parked)
 				<-resume
 				return nil
@@ -270,6 +336,7 @@ func park(r *fox.Router, stage string) (release func(), ok bool) {
 			for range it.All() {
 			}
 			sn.Has("GET", "/w/new")
+			handed.Store(sn)
 			close(parked)
 			<-resume
 			t.Abort()
@@ -298,7 +365,7 @@ func main() {
 		runtime.GOMAXPROCS(1)
 	}
 	reps := run.Pick(50, 200)
-	ents := append(entries(), staleEntries()...)
+	ents := append(append(entries(), staleEntries()...), handedEntries()...)
 	proven := map[string]bool{} // entry points already shown to block: not re-tested (each costs a full watchdog)
 	for _, cfg := range configs {
 		for _, stage := range stages {
@@ -336,7 +403,7 @@ func main() {
 				run.Case(id, true)
 				if !ok {
 					dump := kit.AllStacks()
-					if g := kit.BlockedOnMutex(dump, "ServeHTTP", "Lookup", "Reverse", "(*Router).Has", "(*Router).Route", "(*Router).Len", "(*Router).Iter", "(*Router).Stats", "(*Router).View", "(*Router).NewRoute", "(*Router).Txn(", "Iter).", "(*Txn)."); g != "" {
+					if g := kit.BlockedOnMutex(dump, "github.com/tigerwill90/fox."); g != "" {
 						proven[e.name] = true
 						run.Violate("blocked|"+id, fmt.Sprintf("read entry point %q does not complete while a write transaction is parked at stage %s (config %s): its goroutine waits on a lock/channel inside fox\n%s", e.name, stage, cfg.name, kit.TrimStack(g)),
 							map[string]string{"entry": e.name, "stage": stage, "config": cfg.name})
@@ -373,6 +440,9 @@ func converse(run *kit.Run) {
 	r := build(configs[1])
 	hold := make(chan struct{})
 	started := make(chan struct{}, 3)
+	// a handler that never returns keeps a request in flight (registered before any reader is parked)
+	inflight := make(chan struct{})
+	r.MustHandle("GET", "/slow", func(c fox.Context) { close(inflight); <-hold })
 	go func() {
 		t := r.Txn(false)
 		started <- struct{}{}
@@ -393,9 +463,6 @@ func converse(run *kit.Run) {
 	for i := 0; i < 3; i++ {
 		<-started
 	}
-	// a handler that never returns keeps a request in flight
-	inflight := make(chan struct{})
-	r.MustHandle("GET", "/slow", func(c fox.Context) { close(inflight); <-hold })
 	go r.ServeHTTP(&nullW{http.Header{}}, req("GET", "", "/slow"))
 	<-inflight
 	h := func(fox.Context) {}
